@@ -277,6 +277,19 @@ pub fn gen_batch(d: &mut D, cfg: &BatchCfg) -> Vec<Spec> {
         depth.push(dep);
         specs.push(s);
     }
+    // One fixed receiver for the known finding "skip + word on one variant" (excluded from random
+    // generation by construction): `enum { Alpha, #[darling(skip, word)] Delta }`.
+    specs.push(Spec {
+        id: cfg.n,
+        tr: Trait::FromMeta,
+        container: Container::default(),
+        body: Body::Enum(vec![
+            Variant { rust_name: format!("Alpha{}", cfg.n), rename: None, skip: false, word: false, shape: VShape::Unit },
+            Variant { rust_name: format!("Delta{}", cfg.n), rename: None, skip: true, word: true, shape: VShape::Unit },
+        ]),
+        magic: vec![],
+        purpose: "c09-known-skip-word".into(),
+    });
     specs
 }
 
